@@ -3,6 +3,6 @@ CONSTANTS
   Pairs = {"covmat", "kr_unique", "xvalid", "ball_mig", "ball_nb", "block1", "colcok", "calc", "reuse"}
   Models = {"A", "B", "C", "D"}
   Small = FALSE
-INVARIANT Inv_PairHolds Inv_MigDeviationsClassified
+INVARIANT Inv_PairHolds Inv_MigDeviationsClassified Inv_NoCornerForBall
 CONSTRAINT Emit
 CHECK_DEADLOCK FALSE
